@@ -668,7 +668,15 @@ pub(crate) fn shr(lhs: Number, rhs: Number, arena: &mut Arena) -> Result<Number,
                 }
             };
 
-            Ok(Number::arena_from(Integer::from(&*lhs >> rhs), arena))
+            let mut res = Integer::from(&*lhs >> rhs);
+
+            // >> floors: a negative number never shifts to 0 (the bignum
+            // library yields 0 once every bit is shifted out)
+            if res.is_zero() && lhs.is_negative() {
+                res = Integer::from(-1);
+            }
+
+            Ok(Number::arena_from(res, arena))
         }
         other => Err(numerical_type_error(ValidType::Integer, other, stub_gen)),
     }
